@@ -45,6 +45,10 @@ RULES = {
  "C06": [
   ("KF-C06-1", "generic-function-value-accepted-for-interface-parameter", r'^generic-function-value-accepted-for-interface-parameter/',
    "an uninstantiated generic function value (ov.Id) is accepted as argument for an interface (any, ...any) parameter and emitted as is: Go rejects it (cannot use generic function without instantiation); inside an overload family the candidate with the interface parameter is chosen although Go's rules skip it", "template.go AssignableConv: types.AssignableTo(generic signature, interface) is true"),
+  ("KF-C06-2", "tinit-conversion-assumed-for-multi-value-call", r'^tinit-conversion-assumed-for-multi-value-call/',
+   "F(Big, string) called as F(pair()) with pair() (int, string): the implicit T_Init conversion is taken as applicable to a value of the multi-value call, the candidate is chosen and F(pair()) is emitted, which Go rejects (no conversion can be inserted there)", "ast.go matchFuncType tuple branch: fresh elements without value go through AssignableConv / assignable"),
+  ("KF-C06-3", "generic-candidate-aborts-resolution-on-multi-value-call", r'^generic-candidate-aborts-resolution-on-multi-value-call$',
+   "a family whose generic candidate [T any](T) precedes the applicable one, called with a multi-value call as only argument: inference panics with 'unexpected *types.Tuple' and the whole call is rejected instead of the next candidate being tried", "typeparams.go inferFunc / typesinfer.go: tuple operand"),
  ],
  "C03": [
   ("KF-C03-1", "typed-constant-result-reported-untyped", r'^type (int|int8|uint8|MyInt) reported as untyped int \[constant-operands',
